@@ -179,7 +179,7 @@ class DevProp:
         self.extra_coverage(run_, cases, results, m)
         if not run_.violations and not replaying and hasattr(self, "perturb"):
             self.self_test(run_, cases, results)
-        n_soak = int(os.environ.get("VERIF_SOAK", "20000"))
+        n_soak = int(os.environ.get("VERIF_SOAK", "50000"))
         if self.soak and run_.tier == "thorough" and not run_.violations and not replaying and n_soak > 0:
             import soak
             soak.run_soak(self, run_, n_cases=n_soak, seed=run_.seed, binary=binary)
